@@ -7,11 +7,13 @@ import (
 	"strings"
 )
 
-func getFullPath(filename string, appendExt bool) (string, error) {
-	if usesTemplates {
-		filename = joinPaths(userConfig.TemplateDir, filename)
-	}
+// getTemplatePath returns the absolute path of the template file
+// with the given name inside the template directory
+func getTemplatePath(name string) (string, error) {
+	return getFullPath(joinPaths(userConfig.TemplateDir, name), true)
+}
 
+func getFullPath(filename string, appendExt bool) (string, error) {
 	if appendExt {
 		filename += userConfig.TemplateExt
 	}
